@@ -77,6 +77,22 @@ fn mutate(c: &mut Content, m: &[&str]) {
                 }
             }
         }
+        "dupfree" => {
+            // one stored identifier written over another row's, and the vacated identifier listed as free: every
+            // slot is accounted for, but two rows carry one identifier
+            if na > 0 {
+                let (a, b) = (arch(c, 1), arch(c, 3));
+                if !c.archs[a].rows.is_empty() && !c.archs[b].rows.is_empty() {
+                    let id = c.archs[a].rows[n(2) as usize % c.archs[a].rows.len()].0;
+                    let k = n(4) as usize % c.archs[b].rows.len();
+                    let old = c.archs[b].rows[k].0;
+                    if old != id {
+                        c.archs[b].rows[k].0 = id;
+                        c.free.push(old);
+                    }
+                }
+            }
+        }
         "setid" => {
             if na > 0 {
                 let a = arch(c, 1);
@@ -244,12 +260,27 @@ fn mutate(c: &mut Content, m: &[&str]) {
     }
 }
 
+/// Encoding variations that do not change the content (a self-describing format may hand the fields of a struct
+/// back in any order): every k-th identifier is written with `generation` before `index`.
+static ID_SWAP_EVERY: std::sync::atomic::AtomicUsize = std::sync::atomic::AtomicUsize::new(0);
+static ID_COUNT: std::sync::atomic::AtomicUsize = std::sync::atomic::AtomicUsize::new(0);
+
 fn id_tokens(t: &mut Vec<Token>, id: (u64, u64)) {
+    use std::sync::atomic::Ordering::SeqCst;
+    let every = ID_SWAP_EVERY.load(SeqCst);
+    let swapped = every > 0 && ID_COUNT.fetch_add(1, SeqCst) % every == 0;
     t.push(Token::Struct { name: "Identifier", len: 2 });
-    t.push(Token::Field("index"));
-    t.push(Token::U64(id.0));
-    t.push(Token::Field("generation"));
-    t.push(Token::U64(id.1));
+    if swapped {
+        t.push(Token::Field("generation"));
+        t.push(Token::U64(id.1));
+        t.push(Token::Field("index"));
+        t.push(Token::U64(id.0));
+    } else {
+        t.push(Token::Field("index"));
+        t.push(Token::U64(id.0));
+        t.push(Token::Field("generation"));
+        t.push(Token::U64(id.1));
+    }
     t.push(Token::StructEnd);
 }
 
@@ -821,11 +852,20 @@ fn apply(st: &mut State, line: &str, out: &mut String) {
                 ledger::take_events();
                 if let Some(w) = st.worlds[src].as_mut() {
                     let mut c = content_of(w);
+                    ID_SWAP_EVERY.store(0, std::sync::atomic::Ordering::SeqCst);
+                    ID_COUNT.store(0, std::sync::atomic::Ordering::SeqCst);
                     for m in t[4..].split(|x| *x == ";") {
+                        if m.first().copied() == Some("idswap") {
+                            // not a change of the content: the order of the fields of identifier structs
+                            let k = m.get(1).and_then(|x| x.parse::<usize>().ok()).unwrap_or(1).max(1);
+                            ID_SWAP_EVERY.store(k, std::sync::atomic::Ordering::SeqCst);
+                            continue;
+                        }
                         mutate(&mut c, m);
                     }
                     opline = format!("op cde {} {}{}", dst, if hr { 1 } else { 0 }, content_text(&c));
                     let tokens = serde_assert::Tokens(encode(&c, hr));
+                    ID_SWAP_EVERY.store(0, std::sync::atomic::Ordering::SeqCst);
                     let mut de = serde_assert::Deserializer::builder()
                         .tokens(tokens)
                         .is_human_readable(hr)
